@@ -600,8 +600,8 @@ def generate(kernels=None) -> t.Dict[str, dict]:
                 else:
                     text = translate(k)
                     status[k.name] = {"located": True, "source": python_source(k)}
-            except (Unsupported, OSError, SyntaxError) as exc:
-                status[k.name] = {"located": False, "reason": str(exc)}
+            except Exception as exc:  # noqa: BLE001  (any failure of a translator on changed source = this kernel is not located)
+                status[k.name] = {"located": False, "reason": f"{type(exc).__name__}: {exc}" if not isinstance(exc, Unsupported) else str(exc)}
                 if os.path.exists(fb_path):
                     with open(fb_path) as fh:
                         text = fh.read()
@@ -631,8 +631,8 @@ def generate(kernels=None) -> t.Dict[str, dict]:
                 try:
                     text = _flow.translate(k)
                     status[k.name] = {"located": True, "source": f"<whole body of {k.file}::{k.func} as Prelude/PyAst syntax>"}
-                except (Unsupported, OSError, SyntaxError) as exc:
-                    status[k.name] = {"located": False, "reason": str(exc)}
+                except Exception as exc:  # noqa: BLE001
+                    status[k.name] = {"located": False, "reason": f"{type(exc).__name__}: {exc}" if not isinstance(exc, Unsupported) else str(exc)}
                     if os.path.exists(fb_path):
                         with open(fb_path) as fh:
                             text = fh.read()
